@@ -54,12 +54,14 @@ def unit_text(path):
     attribute of <fn> replaced by the proof hints (the function's body is verified in this unit against
     the same contract text, and assumed under that contract in the other one)."""
     text = open(path).read()
-    m = re.search(r'^@@derive\s+(\S+)\s+(\S+)\s+(\S+)\s+(\d+)\s*$', text, re.M)
+    m = re.search(r'^@@derive\s+(\S+)\s+(\S+)\s+(\S+)\s+(\d+)(?:\s+(.+?))?\s*$', text, re.M)
     if not m:
         return text
     base = open(os.path.join(os.path.dirname(path), m.group(1))).read()
     hints = open(os.path.join(VERIF, 'verus', m.group(3))).read().rstrip('\n')
-    pat = re.compile(r'(@@fn ' + re.escape(m.group(2)) + r'\n)@@attr #\[verifier::external_body\][^\n]*\n')
+    # optional 5th field: the @@impl header the fn lives in (to disambiguate equal fn names)
+    ctx = r'@@impl ' + re.escape(m.group(5)) + r'\n(?:(?!@@end\n)[\s\S])*?' if m.group(5) else ''
+    pat = re.compile(r'(' + ctx + r'@@fn ' + re.escape(m.group(2)) + r'\n)@@attr #\[verifier::external_body\][^\n]*\n')
     if not pat.search(base):
         raise SystemExit(f'{path}: @@derive target fn {m.group(2)} with external_body not found in {m.group(1)}')
     base = pat.sub(lambda mm: mm.group(1) + f'@@attr #[verifier::rlimit({m.group(4)})]\n' + hints + '\n', base, count=1)
